@@ -118,7 +118,34 @@ func loadPrelude() string {
 func check(repo, prop, tier, fnKey string, keep, verbose, noEvidence bool) int {
 	start := time.Now()
 	seed, _ := strconv.Atoi(os.Getenv("VERIF_SEED"))
-	P := mustLoad(repo)
+	P, lerr := loadProgram(repo)
+	if lerr != nil {
+		// The tree does not load with the contract files compiled in (it may well build without them: a lemma
+		// or ghost file names something the change removed). Every obligation was discharged on the tree the
+		// contracts were written for and none can be generated now: reported like a function that left the subset.
+		fmt.Println("UNDECIDED: cannot load repository with -tags verif:", lerr)
+		if prop == "" {
+			return 2
+		}
+		path := ""
+		if !noEvidence {
+			dir := filepath.Join(verifDir, "replays", prop)
+			os.MkdirAll(dir, 0o755)
+			path = filepath.Join(dir, "load.json")
+			data, _ := json.MarshalIndent(map[string]any{"property": prop, "obligation": "load:" + prop, "kind": "subset",
+				"clause": "the repository loads with the contract, lemma and ghost files compiled in", "answer": "undecided",
+				"backend": "loader", "outputs": map[string]string{"loader": lerr.Error()}}, "", " ")
+			os.WriteFile(path, data, 0o644)
+			ev := map[string]any{"property_id": prop, "tier": tier, "seed": seed, "level": "proof",
+				"coverage":    map[string]any{"obligations": 0, "discharged": 0, "load_error": lerr.Error(), "checker_cmd": fmt.Sprintf("/verif/bin/govc check -prop %s -tier %s", prop, tier)},
+				"assumptions": []string{}, "wall_s": time.Since(start).Seconds(), "violations": 1}
+			os.MkdirAll(filepath.Join(verifDir, "evidence"), 0o755)
+			data, _ = json.MarshalIndent(ev, "", " ")
+			os.WriteFile(filepath.Join(verifDir, "evidence", prop+".json"), data, 0o644)
+		}
+		fmt.Printf("VIOLATION property=%s replay=%s obligation=load:%s answer=undecided no-failing-input-found\n", prop, path, prop)
+		return 1
+	}
 	loadT := time.Since(start)
 	registerNamedSorts(P)
 	prelude := loadPrelude()
